@@ -30,7 +30,7 @@ PROPS = {
         'assumptions': LIFE_ASSUME,
     },
     'C02': {
-        'tests': [life('TestC02', 500, 8000)],
+        'tests': [life('TestC02', 500, 8000), tst('osproc', 'TestC02RealBackoff', 1, 3, qshards=4, tshards=8, timeout_q=200, timeout_t=600)],
         'rule': "1-3 independent processes, policy in {'',no,always,on_failure,exit_on_failure} x max_restarts 0-4 x backoff 0-3 (scaled unit) x per-launch signal behaviour; 0-10 drawn steps: exits with codes {0,1,2}, StopProcess, ShutDownProject; non-trivial = a restarting policy saw >= 2 exits of one process; distinct = distinct scenario JSON",
         'floors': {'policy:always': 0.1, 'policy:on_failure': 0.1},
         'assumptions': LIFE_ASSUME,
@@ -130,5 +130,11 @@ PROPS = {
         'rule': "real bash process trees (parent with 0-3 children and 0-2 grandchildren, every member trapping and recording signals, dying or ignoring them) managed by the unhooked production code path; shutdown.signal from the trappable set and out-of-range values, parent_only, timeout_seconds, shutdown.command (succeeding, failing, outliving its timeout); the stop arrives 0-120 ms after the whole tree reported ready, through StopProcess, ShutDownProject, or SIGTERM / SIGINT / SIGHUP sent to the production binary. Oracle: recorded signal per member, /proc aliveness of every member after the request completed, a still-alive observation shortly before timeout_seconds for ignoring parents (sound lower bound for SIGKILL), content written by the shutdown command (name, environment, working directory), bystander process untouched by StopProcess and gone after a project shutdown. Non-trivial = a tree with descendants or any non-default shutdown parameter; distinct = distinct case JSON",
         'floors': {'parent_only': 0.05, 'signal-out-of-range': 0.03},
         'assumptions': ["real time: a case that cannot bring its tree up within 10 s is inconclusive", "members that ignore the signal are only generated below an ignoring parent with a timeout (otherwise nothing in the statement ends them)", "with parent_only the harness itself ends the descendants once the parent is gone (they hold the output pipes open)"],
+    },
+    'C20': {
+        'race': True, 'race_mode': True, 'crash_tolerance': 0.6,
+        'tests': [tst('race', 'TestC20', 25, 400, timeout_q=400, timeout_t=3000)],
+        'rule': "race-instrumented build (-race); projects of 6 fake processes that keep logging, exiting and being restarted by a churn goroutine; op sets of 2-4 operations drawn from {GetProcessesState, GetProcessState, GetProcessInfo, GetProcessLog(+length), GetLogsAndSubscribe/UnSubscribe, GetProjectState, names, Start, Stop, Restart} and, in half of the cases, {Scale, UpdateProject}; each case releases the op set together for 12 rounds, then shuts the project down. Oracle: race-detector reports keyed by the functions of the two innermost process-compose frames (every function that races on the unchanged tree is a recorded finding; a report involving any other function is a violation), supervisor crashes keyed by message class and site, 20 s watchdog on every round and on the final shutdown. Non-trivial = at least one state-changing operation in a set of >= 2; distinct = distinct case JSON",
+        'assumptions': ["the race detector only sees interleavings that occur; absence of reports is weak evidence", "identity of a data race is the racy function, not the pair: the set of functions saturates after about 1 000 cases, the set of pairs does not", "shards that die of a recorded crash lose their remaining cases; the run is inconclusive if more than 60% of the shards die"],
     },
 }
